@@ -116,7 +116,7 @@ class Scenario:
 
 
 OPS = ["popleft", "append", "call_pos0", "call_pos1", "remove_mid", "find_remove", "find", "insert_pos",
-       "reschedule", "iterate"]
+       "reschedule", "iterate", "iterate_partial"]
 
 
 def do_op(sc: Scenario, op):
@@ -156,6 +156,13 @@ def do_op(sc: Scenario, op):
         return "ok"
     if op == "iterate":
         return ("items", len(list(sl.queue_items())))
+    if op == "iterate_partial":
+        # an iteration left part-way (`for h in loop.queue_items(): ... break`, or a body that awaits):
+        # the iterator object stays alive while the foreign thread submits its callback
+        it = iter(sl.queue_items())
+        first = next(it, None)
+        sc.kept = it
+        return ("first", first is not None)
     raise AssertionError(op)
 
 
@@ -223,6 +230,11 @@ def run_case(kind, n, pris, op, k, fpri):
     res["loop_errs"] = sc.drain()
     res["ran"] = ran_before + [t for t in sc.ran[len(ran_before):]]
     res["left"] = len(sc.loop._ready)
+    kept = getattr(sc, "kept", None)
+    if kept is not None and hasattr(kept, "close"):
+        kept.close()
+        if not done.is_set():
+            done.wait(2.0)          # let a foreign thread that was locked out finish, so it does not linger
     sc.close()
     return res
 
